@@ -4,21 +4,23 @@ Copies a confirmed sub-agent change from /tmp/mw-<PROP>/out into /verif/seeded/<
 import sys, os, shutil, json, re
 prop, k, caught = sys.argv[1], sys.argv[2], sys.argv[3]
 note = sys.argv[4] if len(sys.argv) > 4 else ""
-src = f"/tmp/mw-{prop}/out"
-dst = f"/verif/seeded/{prop}-m{k}"
+import os as _os
+pre=_os.environ.get("SRC_PREFIX","/tmp/mw-"); suf=_os.environ.get("ID_SUFFIX","")
+src = f"{pre}{prop}/out"
+dst = f"/verif/seeded/{prop}{suf}-m{k}"
 os.makedirs(dst, exist_ok=True)
 shutil.copy(f"{src}/m{k}.diff", f"{dst}/patch.diff")
 if os.path.isdir(f"{dst}/demo"): shutil.rmtree(f"{dst}/demo")
 shutil.copytree(f"{src}/demo{k}", f"{dst}/demo")
 shutil.copy(f"{src}/m{k}.md", f"{dst}/notes.md")
 ver = ""
-vl = f"/tmp/mw-verify-{prop}.log"
+vl = f"/tmp/mx-verify-{prop}.log" if suf else f"/tmp/mw-verify-{prop}.log"
 if os.path.exists(vl):
     for l in open(vl):
         if f" m{k}:" in l: ver = l.strip()
 md = open(f"{src}/m{k}.md").read()
 meta = {
-  "id": f"{prop}-m{k}",
+  "id": f"{prop}{suf}-m{k}",
   "property": prop,
   "origin": "written by an independent sub-agent that saw only the property text and its own scratch worktree of /repo (nothing from /verif)",
   "files_changed": sorted(set(re.findall(r"^\+\+\+ b/(\S+)", open(f"{src}/m{k}.diff").read(), re.M))),
